@@ -1,11 +1,177 @@
 (* C29 - Playback list/get return exactly the recorded media in range.
-   Only statements here; every proof is `exact <lemma of Proofs/C29_*.v>`. (get part: in progress) *)
+   Only statements here; every proof is `exact <lemma of Proofs/C29_List.v / Proofs/C29_Get.v>`.
+
+   Vocabulary (Proofs/C29_List.v): rec_ok = recorder invariant on the segment list (strictly increasing starts,
+   durations >= 0, a segment that does not continue its predecessor starts at or after the predecessor's end, one
+   that continues it does not end before it); bridged a b = segmentFMP4CanBeConcatenated on consecutive files;
+   runs = maximal runs of segments continuing each other; hull = [start of the first, end of the last);
+   recorded / recorded_hull = an instant lies in a segment / between the start of a segment and the end of one
+   that continues it; contiguous = no jitter between a segment and the one that continues it.
+   (Proofs/C29_Get.v): played = the segments seekAndMux plays with their time offsets; read_rows = recorded samples
+   of a track in the parts that are read, with decode times relative to the requested start; all_rows = the same
+   over all parts; tracks_sorted = per track these times never go back and advance by < 2^32; srows = a sample
+   table without durations; no_cut = the guard excluding the known finding (KNOWN_FINDINGS get:*cut-short). *)
 From Coq Require Import List ZArith Bool.
-Require Import MTX.Model.C29_Playback MTX.Proofs.C29_List.
+Require Import MTX.Model.C29_Playback MTX.Proofs.C29_List MTX.Proofs.C29_Get.
 Import ListNotations.
 Local Open Scope Z_scope.
 
+(* ------------------------------------------------------------------ /list *)
+
+(* spans are time-ordered, non-overlapping and never of negative length, for every window *)
 Theorem C29_list_sorted_disjoint : forall all st en es,
   rec_ok all -> on_list all st en = LEntries es -> entries_sorted es.
 Proof. exact list_sorted_disjoint. Qed.
 Print Assumptions C29_list_sorted_disjoint.
+
+(* union of the spans = recorded media clipped to the window, as sets of instants *)
+Theorem C29_list_cover : forall all st en es,
+  rec_ok all -> contiguous all -> on_list all st en = LEntries es ->
+  forall t, in_entries es t <-> recorded all t /\ in_window st en t.
+Proof. exact list_cover. Qed.
+Print Assumptions C29_list_cover.
+
+(* with NTP/DTS jitter between a segment and the one that continues it, the answer lies between the two
+   readings of "recorded": everything inside a segment is covered, nothing outside the hull of a run is *)
+Theorem C29_list_cover_jitter : forall all st en es,
+  rec_ok all -> on_list all st en = LEntries es -> forall t,
+  (in_entries es t -> in_window st en t /\ recorded_hull all t) /\
+  (recorded all t -> in_window st en t -> in_entries es t).
+Proof. exact list_cover_bounds. Qed.
+Print Assumptions C29_list_cover_jitter.
+
+(* 404 only if nothing was recorded inside the window *)
+Theorem C29_list_notfound : forall all st en,
+  rec_ok all -> on_list all st en = LNotFound -> forall t, in_window st en t -> ~ recorded all t.
+Proof. exact list_notfound. Qed.
+Print Assumptions C29_list_notfound.
+
+(* an end before the start is rejected (fix ed2cfb0; before it: a span of negative length, see the Example below) *)
+Theorem C29_list_reversed_rejected : forall all v e, e < v -> on_list all (Some v) (Some e) = LBadRequest.
+Proof. exact list_reversed_rejected. Qed.
+Print Assumptions C29_list_reversed_rejected.
+
+(* the merged entries are exactly the hulls of the maximal runs: only consecutive files that continue each other
+   are merged, and every such pair is *)
+Theorem C29_merge_only_consecutive : forall l,
+  concatenate l = map hull (runs l) /\ concat (runs l) = l /\
+  Forall (fun g => g <> [] /\ chain g) (runs l) /\ runs_separated (runs l).
+Proof. exact merge_only_consecutive. Qed.
+Print Assumptions C29_merge_only_consecutive.
+
+(* "continues": same stream id and consecutive numbers; files without the mtxi box: same tracks and at most 1 s apart *)
+Theorem C29_continues_iff : forall a b, bridged a b = true <->
+  match s_mtxi a, s_mtxi b with
+  | Some m1, Some m2 => mx_sid m1 = mx_sid m2 /\ (mx_num m1 + 1) mod 2 ^ 64 = mx_num m2
+  | None, None => s_tracks a = s_tracks b /\ seg_end a - second <= s_start b <= seg_end a + second
+  | _, _ => False
+  end.
+Proof. exact bridged_iff. Qed.
+Print Assumptions C29_continues_iff.
+
+(* ------------------------------------------------------------------ /get *)
+
+(* the sample table of every track of the returned file: pre-roll, then exactly the recorded samples (of the parts
+   read) whose decode time relative to the requested start lies in [0, duration), in recorded order, with that time *)
+Theorem C29_get_table : forall all start dur ps g0 off rest,
+  on_get all start dur = Ok ps ->
+  played all start dur = (g0, off) :: rest ->
+  let tracks := s_tracks (g_seg g0) in
+  NoDup (track_ids tracks) ->
+  tracks_sorted dur tracks (played all start dur) ->
+  forall id ts c, In (id, ts, c) tracks ->
+  srows (flat_track id ps) =
+  expected_rows (filter (lt_d (go_to_mp4 dur ts)) (read_rows id ts dur tracks (played all start dur))).
+Proof. exact get_table. Qed.
+Print Assumptions C29_get_table.
+
+(* full strength (window over ALL parts of the played segments) is false: reading stops at the first part in which
+   any track reaches the end of the window *)
+Theorem C29_get_window_refuted :
+  exists all start dur ps g0 off rest id ts c x,
+    on_get all start dur = Ok ps /\ played all start dur = (g0, off) :: rest /\
+    NoDup (track_ids (s_tracks (g_seg g0))) /\
+    tracks_sorted dur (s_tracks (g_seg g0)) (played all start dur) /\
+    In (id, ts, c) (s_tracks (g_seg g0)) /\
+    In x (filter (in_win (go_to_mp4 dur ts)) (all_rows id ts (played all start dur))) /\
+    ~ In (strip (fst x), snd x) (srows (flat_track id ps)).
+Proof. exact get_window_refuted. Qed.
+Print Assumptions C29_get_window_refuted.
+
+(* partial: with the guard no_cut, the table is a pre-roll (no longer than the samples before the start) followed by
+   exactly the samples of the window, in recorded order, re-based to the requested start *)
+Theorem C29_get_window_partial : forall all start dur ps g0 off rest,
+  on_get all start dur = Ok ps ->
+  played all start dur = (g0, off) :: rest ->
+  let tracks := s_tracks (g_seg g0) in
+  let vis := played all start dur in
+  NoDup (track_ids tracks) -> tracks_sorted dur tracks vis ->
+  forall id ts c, In (id, ts, c) tracks -> no_cut id ts dur tracks vis ->
+  exists pre, srows (flat_track id ps) = pre ++ srows (filter (in_win (go_to_mp4 dur ts)) (all_rows id ts vis))
+              /\ (length pre <= length (filter neg_t (read_rows id ts dur tracks vis)))%nat.
+Proof. exact get_window_partial. Qed.
+Print Assumptions C29_get_window_partial.
+
+(* the pre-roll: nothing if the first sample of the window is a sync sample (or the window is empty), otherwise
+   the samples before the start from their last sync sample on (all of them if none is), each at the decode
+   time of the first sample of the window, i.e. with zero duration *)
+Theorem C29_get_preroll : forall all start dur ps g0 off rest,
+  on_get all start dur = Ok ps ->
+  played all start dur = (g0, off) :: rest ->
+  let tracks := s_tracks (g_seg g0) in
+  let vis := played all start dur in
+  NoDup (track_ids tracks) -> tracks_sorted dur tracks vis ->
+  forall id ts c, In (id, ts, c) tracks ->
+  let rows := read_rows id ts dur tracks vis in
+  match filter (in_win (go_to_mp4 dur ts)) rows with
+  | [] => srows (flat_track id ps) = []
+  | (s0, t0) :: _ =>
+      exists before keep,
+        map fst (filter neg_t rows) = before ++ keep /\
+        srows (flat_track id ps) =
+          map (fun p => (strip p, t0)) (if sm_sync s0 then [] else keep) ++ srows (filter (in_win (go_to_mp4 dur ts)) rows) /\
+        forallb (fun s => negb (sm_sync s)) (tl keep) = true /\
+        (before = [] \/ exists k r, keep = k :: r /\ sm_sync k = true)
+  end.
+Proof. exact get_preroll. Qed.
+Print Assumptions C29_get_preroll.
+
+(* the played segments: the first one FindSegments returns, then files that continue their predecessor *)
+Theorem C29_get_played_consecutive : forall all start dur segs,
+  find_segments g_start all (Some start) (Some (start + dur)) = Some segs ->
+  played all start dur <> [] ->
+  exists g0 rest, played all start dur = (g0, g_start g0 - start) :: rest /\
+    chain_from (g_seg g0) (g_start g0 - start) start (g_seg g0) rest /\
+    map fst (played all start dur) = firstn (length (played all start dur)) segs.
+Proof. exact played_chain. Qed.
+Print Assumptions C29_get_played_consecutive.
+
+(* ------------------------------------------------------------------ non-vacuity *)
+
+Definition ex_mx (n d : Z) := Some (mkMtxi 7 n d).
+Definition ex_rec : list seg :=
+  [ mkSeg 1000 2000 (ex_mx 4 0) [(1, 90000, 1)];
+    mkSeg 3000 2500 (ex_mx 5 2000) [(1, 90000, 1)];         (* continues the first, contiguous *)
+    mkSeg 9000 1000 (Some (mkMtxi 8 0 0)) [(1, 90000, 1)] ].  (* another stream, after a gap *)
+
+Example C29_list_example :
+  rec_ok ex_rec /\ contiguous ex_rec /\
+  on_list ex_rec (Some 1500) (Some 9400) = LEntries [mkEntry 1500 4000; mkEntry 9000 400] /\
+  on_list ex_rec (Some 6000) (Some 8000) = LNotFound /\
+  on_list ex_rec (Some 5500) None = LEntries [mkEntry 5500 0; mkEntry 9000 1000] /\
+  runs ex_rec = [[nth 0 ex_rec (mkSeg 0 0 None []); nth 1 ex_rec (mkSeg 0 0 None [])]; [nth 2 ex_rec (mkSeg 0 0 None [])]].
+Proof. vm_compute. repeat split; try discriminate; intros; reflexivity. Qed.
+
+(* the defect repaired by ed2cfb0, on the handler as it was (witness replayed on the real endpoint:
+   segment 2012-08-04_22-20-56-061000.mp4 of 1.1 s, start = ...56.853577777, end = ...56.461000037) *)
+Example C29_list_reversed_before_fix :
+  on_list_core [mkSeg 1344118856061000000 1100000000 None []] (Some 1344118856853577777) (Some 1344118856461000037)
+  = Some [mkEntry 1344118856853577777 (-392577740)].
+Proof. vm_compute. reflexivity. Qed.
+
+Example C29_get_example :
+  on_get [wit_seg] 0 450000000 = Ok [[mkO 1 0 [mkSample 1 500 true 0]; mkO 2 0 [mkSample 2 400 true 0; mkSample 3 400 true 0]]]
+  /\ played [wit_seg] 0 450000000 = [(wit_seg, 0)]
+  /\ no_cut 1 1000 450000000 (s_tracks (g_seg wit_seg)) (played [wit_seg] 0 450000000)
+  /\ no_cut 2 1000 450000000 (s_tracks (g_seg wit_seg)) (played [wit_seg] 0 450000000).
+Proof. exact get_window_example. Qed.
